@@ -9,14 +9,15 @@ from rules.c13 import simplify_trunc
 from bufmodel import BUF_MODELS
 
 LEVEL_TEXT = (
-    "Static clause check over every response the handler can build (abstract interpretation of handle_request for each "
-    "of the request variants, store calls opaque): R1 magic = 0x81, opcode and opaque are the request's, data type 0, and "
-    "these fields are written nowhere but in ResponseHeader::new; R2 the length fields agree with what the encoder writes "
-    "after the header, variant by variant (hits: body = 4 + key + value, extras 4, key echoed exactly for the get-key "
-    "opcodes; counters: 8 bytes; errors: body = length of the very message text that is sent; version: length of the "
-    "version string sent; all others: no body), and the two encoders (encode_data / write_data) agree; R3 the header is "
-    "serialised in protocol order with the protocol's widths (24 bytes); R4 every status that can be sent is in the "
-    "protocol's table and success responses carry status 0. Not decided: payload bytes themselves."
+    'Static clause check over every response the handler can build (abstract interpretation of handle_request for '
+    "each of the request variants, store calls opaque): R1 magic = 0x81, opcode and opaque are the request's, data "
+    'type 0, and these fields are written nowhere but in ResponseHeader::new; R2 the length fields agree with what '
+    'the encoder writes after the header, variant by variant (hits: body = 4 + key + value, extras 4, key echoed '
+    'exactly for the get-key opcodes; counters: 8 bytes; errors: body = length of the very message text that is sent; '
+    'version: length of the version string sent; all others: no body), for both public encoder entry points '
+    "(encode_message and Encoder::encode); R3 the header is serialised in protocol order with the protocol's widths "
+    "(24 bytes), read off the same two entry points; R4 every status that can be sent is in the protocol's table and "
+    'success responses carry status 0. Not decided: payload bytes themselves.'
 )
 ASSUMPTIONS = ["bytes BufMut semantic table (put_uN appends N bytes big-endian, put/put_slice append the slice)", "str::len / Bytes::len are byte lengths"]
 
